@@ -19,23 +19,29 @@ explain), `Uniflow.Index` (segment.go, store.go) – transcriptions of the code 
 On the pinned tree `match_eq_ref` is false (the corpus files are counterexamples; the harness oracle finds them when a
 fix is reverted).
 
-What is proved here
-  * `C10.match_eq_ref` (full strength: every well-formed filter of any depth and size, every present or absent value),
+What is proved here (every theorem about histories quantifies over **all** histories – no bound on length, number of
+documents or indexes, or nesting of filters)
+  * `C10.match_eq_ref` (every well-formed filter of any depth and size, every present or absent value),
     `C10.match_total`, `C10.validate_static`, `C10.malformed_rejected`, `C10.conjunction_order_irrelevant`;
-  * `C10.find_eq_ref_partial`: `Find` = `refFind` (filter, sort, skip, limit, error) whenever the planner uses no index;
-    that a plan never changes the scanned result is C11 (`C11.find_index_independent_partial`), so the two compose to the
-    full `C10.find_eq_ref_full` on states satisfying the index invariant;
-  * `C10.sort_perm`: sorting keeps exactly the matched documents (a permutation). (That the arrangement is ordered by the
-    comparator, and the skip/limit arithmetic, are part of the model shared with the reference `refFind`, not separately
-    proved; Go's `slices.SortFunc` is unstable, the harness compares sorted finds as sequences of tie classes.)
-  * `C10.readback_last_written`: the primary tree returns, under an id, the document last put there, and a put does not
-    disturb other ids.
-Stated but not proved (kept as `def … : Prop`): `C10.find_eq_ref_full`, `C10.patch_eq_ref_full`, `C10.update_eq_ref_full`,
-`C10.delete_eq_ref_full`. They are exercised by the correspondence and by the reference oracle of the harness only.
+  * `C10.find_eq_ref` – `Find` = `refFind` (documents, order, skip/limit, static error) after every history, whatever
+    indexes exist (`GoodOps`: index keys are field names, index filters well-formed – necessary, see C11): the planned scan
+    stays within sound bounds (`C11.plan_sound`) of an index holding every matching document (`C11.index_inv`,
+    `C11.partial_applicable_sound`) and the residual `match` is applied to every scanned document;
+  * `C10.patch_eq_ref` – `$set`/`$unset` = the dictionary reference on every document in `Range` order;
+  * `C10.update_eq_ref` (incl. upsert), `C10.delete_eq_ref`, and the capstone `C10.store_refines`: on every history whose
+    `Index` operations are non-unique the model answers every operation exactly as the reference store
+    (Spec/RefStore.lean: documents only, `refMatch`, per-document steps) and holds the same documents;
+  * `C10.sort_perm`, `C10.readback_last_written`, `C10.ref_find_is_refFind`.
+What is missing for the unrestricted capstone: (1) the reference semantics of *unique* indexes (a constraint that rejects a
+document) – C12 proves that such a rejection leaves no trace and that unique keys stay unique, but the reference store
+here has no constraints, so `store_refines` is stated for histories without unique `Index` operations; (2) the upsert
+document is `extract`'s: `C10.extract_simple_full` (`extract = refExtract` on simple filters) is stated, not proved;
+(3) that the sorted arrangement is ordered by the comparator (`sortDocs` is shared by model and reference).
 -/
-import Uniflow.Proofs.StoreOps
+import Uniflow.Proofs.Refine
+import Uniflow.Proofs.PatchRef
 
-open Uniflow.Value Uniflow.Store Uniflow.Query Uniflow.Plan Uniflow.Index
+open Uniflow.Value Uniflow.Store Uniflow.Query Uniflow.Plan Uniflow.Index Uniflow.RefStore
 
 /-- `match` computes the reference evaluation: for every well-formed filter (any nesting), every value `d` that may be
 absent (`none`), `match(valueOrNil(d), present(d), f) = (refMatch d f, nil)`. -/
@@ -108,40 +114,128 @@ theorem C10.sort_perm (spec : PList) (docs : List PList) : (sortDocs spec docs).
     simp only [sortDocs, List.foldr_cons]
     exact (ins d _).trans (List.Perm.cons d ih)
 
-/-- full statement (needs C11: a non-empty plan scans a superset of the matching documents) -/
+/-- full statement: after every history whose `Index` operations are over field names (keys not starting with `$`) with
+well-formed index filters (`GoodOps`: DESIGN §5 C10 (v); an index key such as `$or` makes the planner read an operator
+entry as a field condition – the hypothesis is necessary), `Find` is the reference find – documents, order, skip/limit –
+and a malformed filter is rejected with the error `validate` reports. -/
 def C10.find_eq_ref_full : Prop :=
-  ∀ (ops : List Op) (f : Option Val) (sort : Option PList) (skip limit : Nat),
+  ∀ (ops : List Op) (f : Option Val) (sort : Option PList) (skip limit : Nat), GoodOps ops →
     let s := run Uniflow.Index.init ops
     storeFind s f sort skip limit =
       if filterOk f then .ok (refFind (s.docs.map (·.2)) f sort skip limit)
       else .err ((f.bind validate).getD .unsupportedType)
+
+/-- **find_eq_ref**, in full: whatever indexes exist. The planned scan stays within sound bounds (`C11.plan_sound`) of an
+index that holds every matching document (`C11.index_inv`, `C11.partial_applicable_sound`), and the residual `match`
+is applied to every scanned document. -/
+theorem C10.find_eq_ref : C10.find_eq_ref_full := by
+  intro ops f sort skip limit hgood s
+  have hfull : Full s := Full_run ops Full_init
+  have hgs : GoodState s := GoodState_run ops GoodState_init hgood
+  cases f with
+  | none =>
+    have h1 : refMatchDoc none = fun _ => true := rfl
+    have h2 : ∀ l : List PList, l.filter (fun _ => true) = l := fun l => by
+      induction l with
+      | nil => rfl
+      | cons a l ih => simp [List.filter, ih]
+    cases sort <;> simp [storeFind, find, Res.bind, refFind, h1, h2, filterOk]
+  | some g =>
+    by_cases hw : wf g = true
+    · have h1 : refMatchDoc (some g) = fun d => refMatch (some (.map d)) g := rfl
+      simp only [storeFind, find_ref hfull hgs hw, Res.bind, refFind, h1, filterOk, hw, if_true]
+      rfl
+    · have hv := validate_wf g
+      cases hval : validate g with
+      | none => simp [hval] at hv; exact absurd hv hw
+      | some e => simp [storeFind, find, hval, Res.bind, filterOk, hw]
 
 /-- the primary tree: a put is read back, other ids are not disturbed -/
 theorem C10.readback_last_written (docs : List (Val × PList)) (id : Val) (d : PList) :
     getDoc (putDoc docs id d) id = some d ∧ ∀ x, cmp id x ≠ 0 → getDoc (putDoc docs id d) x = getDoc docs x :=
   ⟨getDoc_putDoc_same id d (C14.cmp_refl id) docs, fun _ hx => getDoc_putDoc_other d hx docs⟩
 
-/-- `$set`/`$unset` against the dictionary reference: for a well-formed update the patched document and the reference
-dictionary agree on every key (statement only) -/
+/-- `$set`/`$unset` against the dictionary reference: for a document in `Range` order (`KAsc`: strictly ascending
+`(hash, Compare)` keys – every map Go can build; the hypothesis is necessary, `Delete` removes one pair only) and a
+well-formed update, the patched document and the reference dictionary `refPatch` (Spec/Query.lean: `Dict.set` per `$set`
+field, `Dict.delete` per `$unset` field) agree on every key, and the patched document is again in `Range` order. -/
 def C10.patch_eq_ref_full : Prop :=
-  ∀ (d u d' : PList), wfUpdate u = true → patch d u = .ok d' →
-    ∀ k, mfind d' k = Uniflow.Dict.get (refPatch d.toList u) k
+  ∀ (d u d' : PList), KAsc d → wfUpdate u = true → patch d u = .ok d' →
+    (∀ k, mfind d' k = Uniflow.Dict.get (refPatch d.toList u) k) ∧ KAsc d'
 
-/-- `Update` (incl. upsert of a simple filter) against the reference (statement only) -/
+/-- **patch_eq_ref**: documents read back are the values as last written -/
+theorem C10.patch_eq_ref : C10.patch_eq_ref_full := by
+  intro d u d' hd hu hp
+  have := Rel_patch u (Rel_toList hd) hu hp
+  exact ⟨this.look, this.asc⟩
+
+/-- overwriting the existing field of a one-field document (the case that did nothing on the pinned tree, DESIGN §7 row 1) -/
+theorem C10.patch_eq_ref_nonvacuous :
+    ∃ d u d', KAsc d ∧ wfUpdate u = true ∧ patch d u = .ok d' ∧ mfind d' (.str [97]) = some (.int .native 9) :=
+  ⟨.cons (.str [97]) (.int .native 1) .nil,
+   .cons (.str opSet) (.map (.cons (.str [97]) (.int .native 9) .nil)) .nil,
+   .cons (.str [97]) (.int .native 9) .nil,
+   ⟨by simp [pkeys], trivial⟩, by decide, rfl, rfl⟩
+
+/-- `Update` against the reference store (Spec/RefStore.lean `rUpdate`: the matching documents – by `refMatch`, in id order –
+each replaced by its patched version, stopping at the first rejected document; with `upsert` and no match the patched
+upsert document is inserted): same answer (count or error class) and same stored documents, after every history whose
+`Index` operations are non-unique, over field names, with well-formed filters. -/
 def C10.update_eq_ref_full : Prop :=
-  ∀ (ops : List Op) (f : Option Val) (u : PList),
+  ∀ (ops : List Op) (f : Option Val) (u : PList) (upsert : Bool), (∀ op ∈ ops, GoodOp op ∧ NonUniqueOp op) →
     let s := run Uniflow.Index.init ops
-    filterOk f = true → wfUpdate u = true →
-      ∃ n s', storeUpdate s f u false = (s', .ok n) →
-        n = ((s.docs.map (·.2)).filter (refMatchDoc f)).length
+    (storeUpdate s f u upsert).2 = (rUpdate s.docs f u upsert).2 ∧
+      (storeUpdate s f u upsert).1.docs = (rUpdate s.docs f u upsert).1
 
-/-- `Delete` against the reference (statement only) -/
+/-- `Delete` against the reference store (`rDelete`: remove the documents `refMatch` lets through, report their number) -/
 def C10.delete_eq_ref_full : Prop :=
-  ∀ (ops : List Op) (f : Option Val),
+  ∀ (ops : List Op) (f : Option Val), (∀ op ∈ ops, GoodOp op ∧ NonUniqueOp op) →
     let s := run Uniflow.Index.init ops
-    filterOk f = true →
-      ∃ s', storeDelete s f = (s', .ok ((s.docs.map (·.2)).filter (refMatchDoc f)).length) ∧
-        s'.docs.map (·.2) = (s.docs.map (·.2)).filter (fun d => !refMatchDoc f d)
+    (storeDelete s f).2 = (rDelete s.docs f).2 ∧ (storeDelete s f).1.docs = (rDelete s.docs f).1
+
+/-- the capstone: on every history whose `Index` operations are non-unique (over field names, with well-formed filters),
+the store model answers every operation exactly as the reference store does and holds the same documents. -/
+def C10.store_refines_full : Prop :=
+  ∀ (ops : List Op), (∀ op ∈ ops, GoodOp op ∧ NonUniqueOp op) →
+    allOuts Uniflow.Index.init ops = rOuts [] ops ∧ (run Uniflow.Index.init ops).docs = rRun [] ops
+
+/-- the run invariant of histories without unique `Index` operations -/
+theorem C10.inv2_run : ∀ (ops : List Op) {s : State}, Inv2 s → (∀ op ∈ ops, GoodOp op ∧ NonUniqueOp op) → Inv2 (run s ops)
+  | [], _, h, _ => h
+  | op :: ops, _, h, ho =>
+    C10.inv2_run ops (Inv2_step h (ho op (by simp)).1 (ho op (by simp)).2) (fun o h' => ho o (by simp [h']))
+
+/-- **update_eq_ref** (incl. upsert; the upsert document of a filter is `extract`'s – `C10.extract_simple_full` states its
+characterisation for simple filters) -/
+theorem C10.update_eq_ref : C10.update_eq_ref_full := by
+  intro ops f u up hops s
+  exact storeUpdate_ref (C10.inv2_run ops Inv2_init hops) f u up
+
+/-- **delete_eq_ref** -/
+theorem C10.delete_eq_ref : C10.delete_eq_ref_full := by
+  intro ops f hops s
+  exact storeDelete_ref (C10.inv2_run ops Inv2_init hops) f
+
+/-- **store_refines** -/
+theorem C10.store_refines : C10.store_refines_full := by
+  intro ops hops
+  exact run_ref ops Inv2_init hops
+
+/-- the reference store's `Find` is `refFind` of Spec/Query.lean -/
+theorem C10.ref_find_is_refFind (docs : Docs) (f : Option Val) (sort : Option PList) (skip limit : Nat)
+    (hf : filterOk f = true) : rFindAll docs f sort skip limit = .ok (refFind (docs.map (·.2)) f sort skip limit) := by
+  cases f with
+  | none =>
+    have h1 : refMatchDoc none = fun _ => true := rfl
+    have h2 : ∀ l : List PList, l.filter (fun _ => true) = l := fun l => by
+      induction l with
+      | nil => rfl
+      | cons a l ih => simp [List.filter, ih]
+    cases sort <;> simp [rFindAll, rFind, Res.bind, refFind, h1, h2]
+  | some g =>
+    have hv : validate g = none := (C10.validate_static g).mpr hf
+    have h1 : refMatchDoc (some g) = fun d => refMatch (some (.map d)) g := rfl
+    cases sort <;> simp [rFindAll, rFind, hv, Res.bind, refFind, h1]
 
 /-! ### Non-vacuity -/
 
@@ -154,3 +248,7 @@ theorem C10.match_eq_ref_nonvacuous :
    by decide, by decide, ?_⟩
   rw [C10.match_doc_eq_ref _ (by decide)]
   exact congrArg Res.ok (by decide)
+
+/-- the upsert document of a simple filter (Spec/Query.lean `simple`) is the reference's (statement only; not proved) -/
+def C10.extract_simple_full : Prop :=
+  ∀ f : Val, simple f = true → extract f = .ok (refExtract f)
